@@ -319,32 +319,56 @@ def exec_for(eng, node, st, k, ctx):
             return unroll_for_sym(eng, node, s1, k, ctx, n, bound, count, elem)
         idx_name = lc.get("idx", f"_i{n}")
         # note: iteration over a list that the body itself mutates is not modelled
-        s1.env[idx_name] = py(0)
         if it.s[0] == "list":
             s1.env[f"_it{n}"] = it          # the iterated list (may be an anonymous expression): invariants may name it
 
-        def index_havoc(s):
-            i = fresh("lp!" + idx_name, z3.IntSort())
-            s.env[idx_name] = V(INT, i)
-            s.assume(i >= 0)
-            s.assume(i <= count)
-        lc2 = dict(lc)
-        lc2["_index_havoc"] = index_havoc
-        # the iteration space itself is read before the loop: count is fixed
-        def guard_fn(s, k_true, k_false):
-            i = lift(s.env[idx_name]).t
-            sa, sb = s.fork(), s.fork()
-            sa.assume(i < count)
-            sb.assume(i >= count)
-            k_true(sa)
-            k_false(sb)
+        def run_cut(s_c, start):
+            s_c.env[idx_name] = py(start)
 
-        def pre_body(s):
-            bind_target(eng, node.target, elem(s, lift(s.env[idx_name]).t), s)
+            def index_havoc(s):
+                i = fresh("lp!" + idx_name, z3.IntSort())
+                s.env[idx_name] = V(INT, i)
+                s.assume(i >= start)
+                s.assume(i <= count)
+            lc2 = dict(lc)
+            lc2["_index_havoc"] = index_havoc
 
-        def post_body(s):
-            s.env[idx_name] = V(INT, lift(s.env[idx_name]).t + 1)
-        return cut_loop(eng, node, s1, k, ctx, n, lc2, guard_fn, pre_body, post_body, lambda s: {})
+            # the iteration space itself is read before the loop: count is fixed
+            def guard_fn(s, k_true, k_false):
+                i = lift(s.env[idx_name]).t
+                sa, sb = s.fork(), s.fork()
+                sa.assume(i < count)
+                sb.assume(i >= count)
+                k_true(sa)
+                k_false(sb)
+
+            def pre_body(s):
+                bind_target(eng, node.target, elem(s, lift(s.env[idx_name]).t), s)
+
+            def post_body(s):
+                s.env[idx_name] = V(INT, lift(s.env[idx_name]).t + 1)
+            return cut_loop(eng, node, s_c, k, ctx, n, lc2, guard_fn, pre_body, post_body, lambda s: {})
+
+        if lc.get("peel"):
+            # first iteration executed on its own (P: the loop is cut from the second iteration on); break / continue inside it are not supported
+            s_empty, s_first = s1.fork(), s1
+            s_empty.assume(count <= 0)
+            if eng.feasible(s_empty):
+                if node.orelse:
+                    eng.exec_block(node.orelse, s_empty, k, ctx)
+                else:
+                    k(s_empty)
+            s_first.assume(count > 0)
+            if not eng.feasible(s_first):
+                return
+            s_first.env[idx_name] = py(0)
+            bind_target(eng, node.target, elem(s_first, z3.IntVal(0)), s_first)
+
+            def no_jump(_s):
+                raise Unsupported("break / continue in a peeled first iteration")
+            inner = ctx.replace(k_break=no_jump, k_continue=no_jump)
+            return eng.exec_block(node.body, s_first, lambda s2: run_cut(s2, 1), inner)
+        return run_cut(s1, 0)
     return eng.ev(node.iter, st, on_iter, ctx)
 
 
